@@ -172,12 +172,12 @@ PROPS["C13"] = {
 }
 
 PROPS["C17"] = {
-    "units": ["h1_client_codec", "h1_chunked"],
+    "units": ["h1_client_codec", "h1_chunked", "awc_pool_check"],
     "kani": [],
     "technique": "Verus contracts on the extracted real client codecs (ClientCodec::decode, ClientPayloadCodec::{decode, decode_eof}) and awc's PlStream::poll_next with a ghost release log; the payload decoders' exact-framing contracts are unit h1_chunked's",
     "level_text": "deductive proof that the body stream ends cleanly only when the payload decoder reported the framed end (Length counted to 0 / chunked End), or the body is close-delimited, or the status allows no body; that a connection that ends earlier yields an error (decode_eof); that a HEAD response never gets a body decoder; that the peer's keep-alive is not trusted beyond the request's own; and that PlStream releases the connection (on_release, with the codec's keep-alive verdict) exactly once, only on the framed-end item, never on data, error or Pending; exact bytes per framing are PayloadDecoder's contracts (C01 unit)",
     "level_note": "assumes actix_codec::Framed::next_item forwards what decode/decode_eof return (transcribed from actix-codec 0.5.2, dependency) and the connection shims; MessageDecoder<ResponseHead> (httparse) is a dependency shim",
-    "not_decided": ["pool: number of simultaneously open connections <= limit (tokio Semaphore, task interleavings in pool.rs)", "ConnectionCheckFuture taint check on reuse; no leftovers after an early-dropped body (Acquired::release/close)", "response head parsing (httparse) and ClientCodec::encode"],
+    "not_decided": ["pool: number of simultaneously open connections <= limit (tokio Semaphore, task interleavings in pool.rs)", "no leftovers after an early-dropped body (Acquired::release/close; the idle-connection probe ConnectionCheckFuture::poll IS under contract: unread data => Tainted, only a quiet open connection is Live)", "response head parsing (httparse) and ClientCodec::encode"],
     "assumptions": ["ClientCodec::decode precondition: no payload decoder is installed (the debug_assert of the source, moved into requires)", "ClientPayloadCodec::decode precondition: a payload decoder is installed"],
 }
 
